@@ -86,7 +86,13 @@ extern int mpt_stream_sync(MPT_STRUCT(stream) *srm, size_t idlen, const MPT_STRU
 		mpt_message_get(&srm->_rd.data, srm->_rd._state.data.pos, srm->_rd._state.data.msg, &msg, &vec);
 		
 		/* consume/create message id */
-		mpt_message_read(&msg, idlen, buf);
+		if (mpt_message_read(&msg, idlen, buf) < idlen) {
+			/* incomplete id answers nobody, consume broken message */
+			if (mpt_queue_recv(&srm->_rd) < 0) {
+				srm->_rd._state.data.msg = -1;
+			}
+			return MPT_ERROR(BadValue);
+		}
 		/* no return type message */
 		if (!(buf[0] & 0x80)) {
 			return MPT_MESGERR(ActiveInput);
